@@ -23,7 +23,7 @@ import textwrap
 
 from ..core import AnalysisError, norm, short
 from .. import effects, codegen
-from ..callgraph import ROLE_TABLE
+from ..callgraph import ROLE_TABLE, never_referenced
 from . import chain
 from .noninterf import RequestPath
 from .c08 import check_no_shared_store
@@ -34,6 +34,20 @@ APP, ROUTE = 'clastic.application', 'clastic.route'
 SELF_WRITES_TABLE = {
     'clastic.middleware.stats::StatsMiddleware.request': 'route_hits counters: shared by design (the middleware exists to aggregate across requests)',
 }
+
+
+def _group(rep, fn, *args):
+    """One group of rules: "cannot analyse" (also an unexpected shape that trips the rule's own code) is a gap of this
+    group, never a crash and never a verdict; the other groups still run."""
+    def wrapped():
+        try:
+            return fn(*args)
+        except AnalysisError:
+            raise
+        except Exception as e:   # a shape the rule did not anticipate
+            raise AnalysisError('%s: unexpected construct (%s: %s)' % (fn.__name__, type(e).__name__, e))
+    wrapped.__name__ = fn.__name__
+    return rep.guard(wrapped)
 
 
 def run(rep):
@@ -50,49 +64,810 @@ def run(rep):
     rep.rule('R12.d', 'inventory of per-request self-writes in built-in middlewares')
 
     rp = RequestPath(repo)
-    check_no_shared_store(rep, 'R12.a', rp)
-    # generated code
-    fi, te, parts, stop, main = chain.analyse_level_template(repo)
-    r, text = chain._render_level(repo, fi, parts, 0)
+    _group(rep, check_no_shared_store, rep, 'R12.a', rp)
+    _group(rep, check_generated_code, rep)
+    _group(rep, check_route_immutable, rep, route)
+    # ---- R12.c -----------------------------------------------------------
+    _group(rep, check_request_ids, rep, rp, app)
+
+    _group(rep, check_middleware_self_writes, rep)
+
+
+# ---- R12.c: request ids ---------------------------------------------------------------------------------------------
+def _is_counter_ctor(v):
+    """``itertools.count()`` / ``count()`` without arguments."""
+    return isinstance(v, ast.Call) and norm(v.func) in ('itertools.count', 'count') and not v.args and not v.keywords
+
+
+def _request_id_stores(repo):
+    """Every construct in the analysed tree that stores the attribute ``request_id``: (module, FuncInfo or None, statement,
+    receiver expr, value expr or None)."""
+    out = []
+    for m in repo.all_internal_modules():
+        owner = {}
+        for fi in m.functions.values():
+            for n in walk_body(fi.node):
+                owner.setdefault(id(n), fi)
+        for n in ast.walk(m.tree):
+            recv = []
+            if isinstance(n, ast.Assign):
+                for t0 in n.targets:
+                    for t in effects._targets(t0):
+                        if isinstance(t, ast.Attribute) and t.attr == 'request_id':
+                            recv.append((t.value, n.value if t is t0 else None))
+            elif isinstance(n, (ast.AugAssign, ast.AnnAssign)) and isinstance(n.target, ast.Attribute) and n.target.attr == 'request_id':
+                recv.append((n.target.value, n.value if isinstance(n, ast.AnnAssign) else None))
+            elif isinstance(n, (ast.For, ast.With)):
+                tg = [n.target] if isinstance(n, ast.For) else [i.optional_vars for i in n.items if i.optional_vars is not None]
+                for t0 in tg:
+                    for t in effects._targets(t0):
+                        if isinstance(t, ast.Attribute) and t.attr == 'request_id':
+                            recv.append((t.value, None))
+            elif isinstance(n, ast.Call) and isinstance(n.func, ast.Name) and n.func.id == 'setattr' and len(n.args) == 3 and \
+                    isinstance(n.args[1], ast.Constant) and n.args[1].value == 'request_id':
+                recv.append((n.args[0], n.args[2]))
+            for r, v in recv:
+                out.append((m, owner.get(id(n)), n, r, v))
+    return out
+
+
+def _fresh_request_receiver(rp, fi, name, depth=0):
+    """Is local / parameter ``name`` of fi the request object this activation of the request path built from its own
+    environ?  -> (ok, function that builds it, building statement).  A parameter is followed to every caller."""
+    from ..astutil import assigned_value
+    if name in fi.params():
+        if depth > 3:
+            return False, None, None
+        idx = fi.params().index(name)
+        callers = [e for e in rp.cg.callers(fi) if e.kind in ('call', 'self', 'classattr', 'role', 'cha') and isinstance(e.node, ast.Call)]
+        if not callers:
+            return False, None, None
+        found = None
+        for e in callers:
+            call = e.node
+            static = any(isinstance(d, ast.Name) and d.id == 'staticmethod' for d in fi.node.decorator_list)
+            shift = 1 if (fi.cls is not None and not static and isinstance(call.func, ast.Attribute)) else 0
+            from ..astutil import argn
+            a = argn(call, name, idx - shift if idx - shift >= 0 else None)
+            if not isinstance(a, ast.Name):
+                return False, None, None
+            ok, bf, bs = _fresh_request_receiver(rp, e.caller, a.id, depth + 1)
+            if not ok:
+                return False, None, None
+            found = (bf, bs)
+        return True, found[0], found[1]
+    vals = assigned_value(fi.node, name)
+    if len(vals) != 1:
+        return False, None, None
+    st, v, idx = vals[0]
+    env = [p for p in fi.params() if p not in ('self', 'cls')]
+    ok = idx is None and isinstance(v, ast.Call) and norm(v.func) == 'self.request_type' and len(v.args) == 1 and not v.keywords and \
+        isinstance(v.args[0], ast.Name) and v.args[0].id in env
+    return ok, fi, st
+
+
+def check_request_ids(rep, rp, app):
+    """The judgement is about the request path, not about a function name: the process-wide counter is advanced in exactly
+    one place that can run while a request is served, and the value lands on the request object that activation built."""
+    repo = rep.repo
+    dw = app.func('Application._dispatch_wsgi')
+    stores = _request_id_stores(repo)
+    live = [s for s in stores if s[1] is None or not never_referenced(repo, s[1])]
+    dead = [s for s in stores if s not in live]
+    # which counter?
+    ctr = None
+    if len(live) == 1 and isinstance(live[0][4], ast.Call) and norm(live[0][4].func) == 'next' and len(live[0][4].args) == 1 and \
+            isinstance(live[0][4].args[0], ast.Name) and live[0][1] is not None:
+        nm = live[0][4].args[0].id
+        fi_ = live[0][1]
+        shadowed = nm in fi_.params() or any(isinstance(n, ast.Name) and n.id == nm and isinstance(n.ctx, ast.Store) for n in ast.walk(fi_.node))
+        kind, cm, obj = repo.resolve(fi_.mod, nm)
+        if not shadowed and kind == 'value' and cm is not None and not cm.external:
+            ctr = (nm, cm, obj)
+    cname, cmod = (ctr[0], ctr[1]) if ctr else ('_REQ_ID_ITER', app)
+    vals = cmod.assigns.get(cname, [])
+    ok = len(vals) == 1 and _is_counter_ctor(vals[0])
+    rep.check('R12.c', '%s::_REQ_ID_ITER' % APP, ok, '%s is one module-level itertools.count()' % cname if ok else
+              '%s is not a single module-level itertools.count(): %s' % (cname, [norm(v) if v is not None else '?' for v in vals]), cmod)
+    rebinds = []
+    for m in repo.all_internal_modules():
+        for n_ in ast.walk(m.tree):
+            if isinstance(n_, ast.Global) and cname in n_.names:
+                rebinds.append((m, n_))
+            if isinstance(n_, ast.Attribute) and n_.attr == cname and isinstance(n_.ctx, (ast.Store, ast.Del)):
+                rebinds.append((m, n_))
+            if isinstance(n_, ast.Call) and isinstance(n_.func, ast.Name) and n_.func.id in ('setattr', 'delattr') and len(n_.args) >= 2 and \
+                    isinstance(n_.args[1], ast.Constant) and n_.args[1].value == cname:
+                rebinds.append((m, n_))
+    rep.check('R12.c', 'clastic::_REQ_ID_ITER rebinding', not rebinds, 'the counter is never rebound or reset' if not rebinds else
+              'the request-id counter is rebound at %s' % ['%s:%s' % (m.relpath, n_.lineno) for m, n_ in rebinds], app)
+    on_path = len(live) == 1 and live[0][1] is not None and live[0][1] in rp.reach
+    ok = ctr is not None and on_path
+    rep.check('R12.c', 'clastic::request_id source', ok,
+              'request_id is assigned in one place on the request path (%s), from next(%s)%s' %
+              (live[0][1].qualname, cname, '; %d further store(s) only in functions nothing refers to' % len(dead) if dead else '') if ok else
+              'request_id is assigned from something other than next(_REQ_ID_ITER) in exactly one place on the request path: %s'
+              % ['%s: %s' % (f.qualname if f is not None else m.name, short(s)) for m, f, s, _, _ in live], app,
+              live[0][2] if live else None)
+    if not live:
+        return
+    sfi = live[0][1] if on_path else dw
+    recvs = sorted(set(norm(s[3]) for s in live if s[1] is sfi and isinstance(s[3], ast.Name)))
+    rq = recvs[0] if len(recvs) == 1 else 'request'
+    gs = [s for s in stmts_of(sfi.node) if isinstance(s, ast.Assign) and any(isinstance(t, ast.Attribute) and t.attr == 'request_guid' for t in s.targets)]
+    ok = len(gs) == 1 and len(gs[0].targets) == 1 and norm(gs[0].targets[0].value) == rq and isinstance(gs[0].value, ast.Call) and \
+        call_name(gs[0].value) == 'int2hexguid' and [norm(a) for a in gs[0].value.args] == ['%s.request_id' % rq] and not gs[0].value.keywords
+    rep.check('R12.c', fkey(sfi, 'request_guid'), ok, 'request_guid derives from this request\'s id' if ok else
+              'request_guid does not derive from %s.request_id' % rq, sfi.mod, gs[0] if gs else sfi.node)
+    ok, bf, bs = _fresh_request_receiver(rp, sfi, rq)
+    rep.check('R12.c', fkey(sfi, 'fresh request'), ok, 'every call builds its own request object from its own environ' if ok else
+              'the request object that receives the id is not freshly built from this call\'s environ', sfi.mod, bs if bs is not None else sfi.node)
+
+
+def _env_keys(fi, call, callee):
+    """Names the generated code is executed with: keys of the ``env`` mapping handed to compile_code (a dict display or
+    ``dict(k=v)``, possibly named by a single-assignment local) -- None when not resolvable."""
+    from ..astutil import argn, assigned_value
+    ps = callee.params()
+    e = argn(call, 'env', ps.index('env') if 'env' in ps else None)
+    if isinstance(e, ast.Name) and e.id not in fi.params():
+        vals = assigned_value(fi.node, e.id)
+        if len(vals) != 1 or vals[0][2] is not None:
+            return None
+        if any(ef.root == e.id for ef in effects.effects_in(fi.node)):
+            return None
+        e = vals[0][1]
+    if isinstance(e, ast.Dict) and all(isinstance(k, ast.Constant) and isinstance(k.value, str) for k in e.keys):
+        return sorted(k.value for k in e.keys)
+    if isinstance(e, ast.Call) and isinstance(e.func, ast.Name) and e.func.id == 'dict' and not e.args and all(k.arg for k in e.keywords):
+        return sorted(k.arg for k in e.keywords)
+    return None
+
+
+def _judge_generated(rep, label, text, env, mod_, node, how):
+    try:
+        tree = ast.parse(textwrap.dedent(text))
+    except SyntaxError as e:
+        raise AnalysisError('generated %s does not parse: %s' % (label, e))
+    # the sample must be what the rule is about: a function definition that calls out; otherwise the template
+    # was not understood (which is not a verdict on the generated code)
+    defs = [n for n in tree.body if isinstance(n, ast.FunctionDef)]
+    if len(defs) != 1 or len(tree.body) != 1 or not any(isinstance(n, ast.Return) for n in ast.walk(defs[0])):
+        raise AnalysisError('generated %s: the rendered sample is not a single function definition (template not understood)' % label)
+    bad = []
+    for n in ast.walk(tree):
+        if isinstance(n, (ast.Global, ast.Nonlocal)):
+            bad.append(norm(n))
+        if isinstance(n, (ast.Attribute, ast.Subscript)) and isinstance(n.ctx, (ast.Store, ast.Del)):
+            bad.append(norm(n))
+        if isinstance(n, ast.Call) and isinstance(n.func, ast.Attribute) and n.func.attr in effects.MUTATORS:
+            bad.append(norm(n))
+    rep.check('R12.a', 'generated::%s' % label, not bad,
+              'generated %s stores only into locals; per-request values live in call frames (%s)' % (label, how) if not bad else
+              'generated %s contains a heap store / global: %s' % (label, bad), mod_, node)
+    free = set()
+    for n in ast.walk(tree):
+        if isinstance(n, ast.Name) and isinstance(n.ctx, ast.Load):
+            free.add(n.id)
+    bound = set(a.arg for f_ in ast.walk(tree) if isinstance(f_, ast.FunctionDef) for a in f_.args.args) | \
+        set(f_.name for f_ in ast.walk(tree) if isinstance(f_, ast.FunctionDef)) | \
+        set(n.id for n in ast.walk(tree) if isinstance(n, ast.Name) and isinstance(n.ctx, ast.Store))
+    closed = sorted(x for x in free - bound if not x.startswith('__H') and x not in ('True', 'False', 'None', 'isinstance'))
+    # the names it may read are exactly the per-chain objects it is executed with (fixed at construction)
+    want = env if env is not None else (['funcs'] if label == 'chain level' else ['BaseResponse', 'endpoint', 'render'])
+    rep.check('R12.a', 'generated::%s closure' % label, closed == want, 'closes over %s only' % want if closed == want else
+              'generated %s reads free names %s (expected %s)' % (label, closed, want), mod_, node)
+
+
+def check_generated_code(rep):
+    from ..astutil import argn
+    repo = rep.repo
+    sinter = repo.mod('clastic.sinter')
+    compile_code = sinter.func('compile_code')
+    cps = compile_code.params()
     core = repo.mod('clastic.middleware.core')
     ci = core.func('_create_request_inner')
-    cc = [c for c in walk_body(ci.node) if isinstance(c, ast.Call) and call_name(c) == 'compile_code'][0]
-    parts2 = codegen.TemplateEval(repo, ci).ev(cc.args[0], cc.lineno)
-    text2 = codegen.render(parts2).text
-    for label, t, mod_, node in (('chain level', text, fi.mod, main), ('request core', text2, core, cc)):
+
+    def via_template(label):
+        """-> (text, env keys, module, node): the text as a template rendered with placeholder identifiers"""
+        if label == 'chain level':
+            fi, te, parts, stop, main = chain.analyse_level_template(repo)
+            r, text = chain._render_level(repo, fi, parts, 0)
+            # the environment the chain text is executed in: the compile_code call of the function that builds the text
+            env = None
+            for f2 in sinter.functions.values():
+                calls = [c for c in walk_body(f2.node) if isinstance(c, ast.Call)]
+                if any(call_name(c) == fi.name for c in calls) and f2 is not fi:
+                    for c in calls:
+                        if call_name(c) == 'compile_code':
+                            env = _env_keys(f2, c, compile_code)
+            mod_, node = fi.mod, main
+        else:
+            ccs = [c for c in walk_body(ci.node) if isinstance(c, ast.Call) and call_name(c) == 'compile_code']
+            if len(ccs) != 1:
+                raise AnalysisError('_create_request_inner: expected one compile_code call, found %d' % len(ccs))
+            src = argn(ccs[0], cps[0], 0)
+            if src is None:
+                raise AnalysisError('_create_request_inner: the code argument of compile_code not found')
+            r = codegen.render(codegen.TemplateEval(repo, ci).ev(src, ccs[0].lineno))
+            text = r.text
+            env = _env_keys(ci, ccs[0], compile_code)
+            mod_, node = core, ccs[0]
+        opaque = [h for h in r.holes.values() if isinstance(h, codegen.Sym) and h.kind == 'expr']
+        if opaque:
+            raise AnalysisError('generated %s: part of the text is built in a way the template evaluator cannot follow (%s)'
+                                % (label, short(opaque[0].expr)))
+        tree = None
         try:
-            tree = ast.parse(textwrap.dedent(t))
+            tree = ast.parse(textwrap.dedent(text))
         except SyntaxError as e:
             raise AnalysisError('generated %s does not parse: %s' % (label, e))
-        bad = []
-        for n in ast.walk(tree):
-            if isinstance(n, (ast.Global, ast.Nonlocal)):
-                bad.append(norm(n))
-            if isinstance(n, (ast.Attribute, ast.Subscript)) and isinstance(n.ctx, (ast.Store, ast.Del)):
-                bad.append(norm(n))
-            if isinstance(n, ast.Call) and isinstance(n.func, ast.Attribute) and n.func.attr in effects.MUTATORS:
-                bad.append(norm(n))
-        rep.check('R12.a', 'generated::%s' % label, not bad,
-                  'generated %s stores only into locals; per-request values live in call frames' % label if not bad else
-                  'generated %s contains a heap store / global: %s' % (label, bad), mod_, node)
-        free = set()
-        for n in ast.walk(tree):
-            if isinstance(n, ast.Name) and isinstance(n.ctx, ast.Load):
-                free.add(n.id)
-        bound = set(a.arg for f_ in ast.walk(tree) if isinstance(f_, ast.FunctionDef) for a in f_.args.args) | \
-            set(f_.name for f_ in ast.walk(tree) if isinstance(f_, ast.FunctionDef)) | \
-            set(n.id for n in ast.walk(tree) if isinstance(n, ast.Name) and isinstance(n.ctx, ast.Store))
-        closed = sorted(x for x in free - bound if not x.startswith('__H') and x not in ('True', 'False', 'None', 'isinstance'))
-        want = ['funcs'] if label == 'chain level' else ['BaseResponse', 'endpoint', 'render']
-        rep.check('R12.a', 'generated::%s closure' % label, closed == want, 'closes over %s only' % want if closed == want else
-                  'generated %s reads free names %s (expected %s)' % (label, closed, want), mod_, node)
+        if len(tree.body) != 1 or not isinstance(tree.body[0], ast.FunctionDef):
+            raise AnalysisError('generated %s: the rendered sample is not a single function definition (template not understood)' % label)
+        return text, env, mod_, node
 
+    for label in ('chain level', 'request core'):
+        try:
+            text, env, mod_, node = via_template(label)
+            how = 'template rendered with placeholder names'
+        except AnalysisError as e1:
+            try:
+                text, env, mod_, node = sample_generated(repo, label)
+                how = 'text produced for sample inputs, every text-producing statement of the builder covered'
+            except AnalysisError as e2:
+                raise AnalysisError('%s; and the builder could not be run on sample inputs either: %s' % (e1, e2))
+        _judge_generated(rep, label, text, env, mod_, node, how)
+
+
+def sample_generated(repo, label):
+    """-> (text, env keys, module, node): the text the builder hands to compile_code for sample inputs (see SampleRun)"""
+    sinter = repo.mod('clastic.sinter')
+    cps = sinter.func('compile_code').params()
+    o = lambda n, names: _Opaque(n, names)
+    if label == 'chain level':
+        fn = sinter.func('compile_chain')
+        args = {'funcs': [o('f0', ['next', 'a', 'q']), o('f1', ['next', 'b', 'a']), o('f2', ['a', 'b', 'c', 'd'])],
+                'params': [['a'], ['b'], ['c', 'd']], 'inner_name': 'next'}
+    else:
+        fn = repo.mod('clastic.middleware.core').func('_create_request_inner')
+        args = {'endpoint': o('endpoint', ['a']), 'render': o('render', ['b', 'context']), 'all_args': ['a', 'b'],
+                'endpoint_args': ['a'], 'render_args': ['b', 'context']}
+    run = SampleRun(repo, 'compile_code')
+    got = run.capture(fn, args)
+    bound = dict(zip(cps, got[0]))
+    bound.update(got[1])
+    text, env = bound.get(cps[0]), bound.get('env')
+    if not isinstance(text, str) or not isinstance(env, dict) or not all(isinstance(k, str) for k in env):
+        raise AnalysisError('generated %s: compile_code is not handed a text and a name->object mapping on the sample run' % label)
+    run.require_coverage()
+    return text, sorted(env), fn.mod, fn.node
+
+
+# ---- following a text builder by running it on sample inputs -----------------------------------------------------------
+class _Opaque(object):
+    """A value the builder only passes around (a callable of the chain, an imported class)."""
+
+    def __init__(self, label, arg_names=None):
+        self.label, self.arg_names = label, arg_names
+
+    def __repr__(self):
+        return '<%s>' % self.label
+
+
+class _FB(object):
+    """Model of sinter.get_fb(f): what the builders use of a FunctionBuilder."""
+
+    def __init__(self, f):
+        if not isinstance(f, _Opaque) or f.arg_names is None:
+            raise AnalysisError('get_fb() applied to %r on the sample run' % (f,))
+        self.f = f
+        self.varkw = None
+
+    def get_arg_names(self, only_required=False):
+        return list(self.f.arg_names)
+
+    def get_defaults_dict(self):
+        return {}
+
+
+class _Captured(Exception):
+    def __init__(self, args, kwargs):
+        Exception.__init__(self)
+        self.call = (args, kwargs)
+
+
+class _Flow(Exception):
+    def __init__(self, value=None):
+        Exception.__init__(self)
+        self.value = value
+
+
+class _Return(_Flow):
+    pass
+
+
+class _Break(_Flow):
+    pass
+
+
+class _Continue(_Flow):
+    pass
+
+
+class SampleRun(object):
+    """Interpreter for the side-effect-free subset of Python the text builders are written in (strings, numbers, lists,
+    tuples, sets, dicts; loops, comprehensions, recursion, helper functions of the same module), applied to the *syntax
+    tree* of the analysed functions with sample arguments.  The run stops at the call of ``stop_at`` and yields its
+    arguments.  Anything outside the subset is an AnalysisError.  ``require_coverage`` then demands that every statement
+    of the interpreted functions that can contribute text was executed, so no fragment of generated code stays unseen."""
+
+    PLAIN = (str, int, float, bool, type(None), list, tuple, set, frozenset, dict, bytes)
+    BUILTINS = {'len': len, 'range': lambda *a: list(range(*a)), 'sorted': sorted, 'set': set, 'list': list, 'tuple': tuple, 'dict': dict,
+                'zip': lambda *a: list(zip(*a)), 'enumerate': lambda *a: list(enumerate(*a)), 'reversed': lambda x: list(reversed(x)),
+                'str': str, 'repr': repr, 'min': min, 'max': max, 'any': any, 'all': all, 'bool': bool, 'int': int,
+                'frozenset': frozenset, 'sum': sum, 'print': lambda *a, **k: None}
+    METHODS = {
+        str: {'join', 'format', 'strip', 'lstrip', 'rstrip', 'split', 'rsplit', 'startswith', 'endswith', 'replace', 'upper', 'lower',
+              'splitlines', 'partition', 'rpartition', 'title', 'zfill', 'ljust', 'rjust', 'center', 'count', 'find', 'index', 'isdigit',
+              'isidentifier', 'expandtabs', 'capitalize'},
+        list: {'append', 'extend', 'insert', 'pop', 'index', 'count', 'copy', 'reverse', 'sort', 'remove', 'clear'},
+        tuple: {'index', 'count'},
+        set: {'add', 'update', 'discard', 'remove', 'union', 'difference', 'intersection', 'copy', 'issubset', 'issuperset',
+              'difference_update', 'intersection_update', 'symmetric_difference', 'isdisjoint', 'clear', 'pop'},
+        frozenset: {'union', 'difference', 'intersection', 'copy', 'issubset', 'issuperset', 'symmetric_difference', 'isdisjoint'},
+        dict: {'get', 'items', 'keys', 'values', 'update', 'setdefault', 'pop', 'copy', 'clear'},
+    }
+    MODELLED = {'get_fb': lambda f, *a, **k: _FB(f), 'get_arg_names': lambda f, *a, **k: _FB(f).get_arg_names()}
+    BINOPS = {ast.Add: lambda a, b: a + b, ast.Sub: lambda a, b: a - b, ast.Mult: lambda a, b: a * b, ast.Mod: lambda a, b: a % b,
+              ast.BitOr: lambda a, b: a | b, ast.BitAnd: lambda a, b: a & b, ast.BitXor: lambda a, b: a ^ b, ast.FloorDiv: lambda a, b: a // b}
+    CMPOPS = {ast.Eq: lambda a, b: a == b, ast.NotEq: lambda a, b: a != b, ast.Lt: lambda a, b: a < b, ast.LtE: lambda a, b: a <= b,
+              ast.Gt: lambda a, b: a > b, ast.GtE: lambda a, b: a >= b, ast.Is: lambda a, b: a is b, ast.IsNot: lambda a, b: a is not b,
+              ast.In: lambda a, b: a in b, ast.NotIn: lambda a, b: a not in b}
+
+    def __init__(self, repo, stop_at, budget=40000):
+        self.repo, self.stop_at, self.budget = repo, stop_at, budget
+        self.executed = set()
+        self.seen = []
+
+    # -- driver
+    def capture(self, fi, args):
+        ps = fi.params()
+        missing = [k for k in args if k not in ps]
+        if missing:
+            raise AnalysisError('%s has no parameter(s) %s' % (fi.qualname, missing))
+        try:
+            self.call_function(fi, [], dict(args), 0)
+        except _Captured as c:
+            return c.call
+        except AnalysisError:
+            raise
+        except RecursionError:
+            raise AnalysisError('%s: sample run recursed too deep' % fi.qualname)
+        except Exception as e:
+            raise AnalysisError('%s: sample run failed (%s: %s)' % (fi.qualname, type(e).__name__, e))
+        raise AnalysisError('%s: sample run finished without calling %s' % (fi.qualname, self.stop_at))
+
+    def require_coverage(self):
+        for fi in self.seen:
+            body = list(fi.node.body)
+            doc = body[0] if body and isinstance(body[0], ast.Expr) and isinstance(body[0].value, ast.Constant) else None
+            for st in stmts_of(fi.node):
+                if st is doc or id(st) in self.executed or not isinstance(st, (ast.Assign, ast.AugAssign, ast.AnnAssign, ast.Expr, ast.Return)):
+                    continue
+                if any(isinstance(n, ast.Constant) and isinstance(n.value, str) and n.value.strip() for n in ast.walk(st)) or \
+                        any(isinstance(n, ast.JoinedStr) for n in ast.walk(st)):
+                    raise AnalysisError('%s: line %d can contribute text but was not reached on the sample run' % (fi.qualname, st.lineno))
+
+    def tick(self):
+        self.budget -= 1
+        if self.budget < 0:
+            raise AnalysisError('sample run exceeded its step budget')
+
+    def plain(self, v):
+        if isinstance(v, self.PLAIN) or isinstance(v, (_Opaque, _FB)):
+            return v
+        raise AnalysisError('sample run produced a value outside the modelled types: %r' % type(v).__name__)
+
+    # -- functions
+    def call_function(self, fi, pos, kw, depth):
+        if depth > 40:
+            raise AnalysisError('%s: sample run recursed too deep' % fi.qualname)
+        a = fi.node.args
+        if fi.node.decorator_list or a.vararg or a.kwarg or a.posonlyargs or any(isinstance(n, (ast.Yield, ast.YieldFrom, ast.Await)) for n in ast.walk(fi.node)):
+            raise AnalysisError('%s: not a plain function' % fi.qualname)
+        names = [x.arg for x in a.args]
+        if len(pos) > len(names):
+            raise AnalysisError('%s: too many arguments on the sample run' % fi.qualname)
+        env = dict(zip(names, pos))
+        for k, v in kw.items():
+            if k in env or k not in names + [x.arg for x in a.kwonlyargs]:
+                raise AnalysisError('%s: bad keyword %s on the sample run' % (fi.qualname, k))
+            env[k] = v
+        defaults = dict(zip(names[len(names) - len(a.defaults):], a.defaults))
+        for x, d in zip(a.kwonlyargs, a.kw_defaults):
+            if d is not None:
+                defaults[x.arg] = d
+        for n in names + [x.arg for x in a.kwonlyargs]:
+            if n not in env:
+                if n not in defaults:
+                    raise AnalysisError('%s: parameter %s unbound on the sample run' % (fi.qualname, n))
+                env[n] = self.ev(defaults[n], {}, fi, depth)
+        if fi not in self.seen:
+            self.seen.append(fi)
+        try:
+            self.block(fi.node.body, env, fi, depth)
+        except _Return as r:
+            return r.value
+        return None
+
+    # -- statements
+    def block(self, stmts, env, fi, depth):
+        for st in stmts:
+            self.tick()
+            self.executed.add(id(st))
+            if isinstance(st, ast.Expr):
+                self.ev(st.value, env, fi, depth)
+            elif isinstance(st, ast.Assign):
+                v = self.ev(st.value, env, fi, depth)
+                for t in st.targets:
+                    self.store(t, v, env, fi, depth)
+            elif isinstance(st, ast.AnnAssign):
+                if st.value is not None:
+                    self.store(st.target, self.ev(st.value, env, fi, depth), env, fi, depth)
+            elif isinstance(st, ast.AugAssign):
+                if type(st.op) not in self.BINOPS:
+                    raise AnalysisError('line %d: operator not modelled' % st.lineno)
+                cur = self.ev(self._as_load(st.target), env, fi, depth)
+                new = self.ev(st.value, env, fi, depth)
+                if isinstance(cur, (list, set, dict)) and isinstance(st.op, (ast.Add, ast.BitOr, ast.BitAnd, ast.Sub)):
+                    # in-place operators of mutable containers keep the object's identity
+                    if isinstance(cur, list) and isinstance(st.op, ast.Add):
+                        cur.extend(new)
+                    elif isinstance(cur, set) and isinstance(st.op, ast.BitOr):
+                        cur |= new
+                    elif isinstance(cur, set) and isinstance(st.op, ast.BitAnd):
+                        cur &= new
+                    elif isinstance(cur, set) and isinstance(st.op, ast.Sub):
+                        cur -= new
+                    else:
+                        raise AnalysisError('line %d: in-place operator not modelled' % st.lineno)
+                    self.store(st.target, cur, env, fi, depth)
+                else:
+                    self.store(st.target, self.plain(self.BINOPS[type(st.op)](cur, new)), env, fi, depth)
+            elif isinstance(st, ast.If):
+                self.block(st.body if self.ev(st.test, env, fi, depth) else st.orelse, env, fi, depth)
+            elif isinstance(st, ast.For):
+                it = self.ev(st.iter, env, fi, depth)
+                if not isinstance(it, (list, tuple, set, frozenset, dict, str)):
+                    raise AnalysisError('line %d: loop over a value of type %s' % (st.lineno, type(it).__name__))
+                broke = False
+                for x in list(it):
+                    self.store(st.target, x, env, fi, depth)
+                    try:
+                        self.block(st.body, env, fi, depth)
+                    except _Break:
+                        broke = True
+                        break
+                    except _Continue:
+                        continue
+                if not broke:
+                    self.block(st.orelse, env, fi, depth)
+            elif isinstance(st, ast.While):
+                broke = False
+                while self.ev(st.test, env, fi, depth):
+                    self.tick()
+                    try:
+                        self.block(st.body, env, fi, depth)
+                    except _Break:
+                        broke = True
+                        break
+                    except _Continue:
+                        continue
+                if not broke:
+                    self.block(st.orelse, env, fi, depth)
+            elif isinstance(st, ast.Return):
+                raise _Return(self.ev(st.value, env, fi, depth) if st.value is not None else None)
+            elif isinstance(st, ast.Break):
+                raise _Break()
+            elif isinstance(st, ast.Continue):
+                raise _Continue()
+            elif isinstance(st, (ast.Pass, ast.Assert)):
+                pass
+            else:
+                raise AnalysisError('%s line %d: %s is outside the modelled subset' % (fi.qualname, st.lineno, type(st).__name__))
+
+    @staticmethod
+    def _as_load(t):
+        import copy
+        t2 = copy.deepcopy(t)
+        for n in ast.walk(t2):
+            if hasattr(n, 'ctx'):
+                n.ctx = ast.Load()
+        return t2
+
+    def store(self, t, v, env, fi, depth):
+        if isinstance(t, ast.Name):
+            env[t.id] = v
+        elif isinstance(t, (ast.Tuple, ast.List)):
+            vs = list(v)
+            star = [i for i, e in enumerate(t.elts) if isinstance(e, ast.Starred)]
+            if star:
+                i = star[0]
+                after = len(t.elts) - i - 1
+                if len(vs) < len(t.elts) - 1:
+                    raise AnalysisError('line %d: not enough values to unpack' % t.lineno)
+                parts = vs[:i] + [vs[i:len(vs) - after]] + vs[len(vs) - after:]
+                for e, x in zip(t.elts, parts):
+                    self.store(e.value if isinstance(e, ast.Starred) else e, x, env, fi, depth)
+            else:
+                if len(vs) != len(t.elts):
+                    raise AnalysisError('line %d: unpacking %d values into %d targets' % (t.lineno, len(vs), len(t.elts)))
+                for e, x in zip(t.elts, vs):
+                    self.store(e, x, env, fi, depth)
+        elif isinstance(t, ast.Subscript) and not isinstance(t.slice, ast.Slice):
+            c = self.ev(t.value, env, fi, depth)
+            if not isinstance(c, (list, dict)):
+                raise AnalysisError('line %d: item store into %s' % (t.lineno, type(c).__name__))
+            c[self.ev(t.slice, env, fi, depth)] = v
+        else:
+            raise AnalysisError('line %d: store target outside the modelled subset' % t.lineno)
+
+    # -- expressions
+    def lookup(self, name, env, fi):
+        if name in env:
+            return env[name]
+        if name in self.MODELLED:
+            return ('model', name)
+        kind, m, obj = self.repo.resolve(fi.mod, name)
+        if kind == 'func':
+            if obj.name == self.stop_at:
+                return ('stop', obj)
+            if m is not None and not m.external:
+                return ('func', obj)
+        if kind == 'value' and m is not None:
+            try:
+                return self.plain(self.repo.fold(ast.Name(id=name, ctx=ast.Load()), m))
+            except AnalysisError:
+                raise
+            except Exception:
+                raise AnalysisError('module-level name %s has no constant value' % name)
+        if name in self.BUILTINS:
+            return ('builtin', name)
+        if kind in ('class', 'external', 'module') or name in fi.mod.imports or name in fi.mod.classes:
+            return _Opaque(name)
+        raise AnalysisError('name %s cannot be resolved on the sample run' % name)
+
+    def comp(self, gens, env, fi, depth, emit):
+        def rec(i, scope):
+            if i == len(gens):
+                emit(scope)
+                return
+            g = gens[i]
+            if g.is_async:
+                raise AnalysisError('async comprehension')
+            it = self.ev(g.iter, scope, fi, depth)
+            if not isinstance(it, (list, tuple, set, frozenset, dict, str)):
+                raise AnalysisError('comprehension over a value of type %s' % type(it).__name__)
+            for x in list(it):
+                self.tick()
+                sc = dict(scope)
+                self.store(g.target, x, sc, fi, depth)
+                if all(self.ev(c, sc, fi, depth) for c in g.ifs):
+                    rec(i + 1, sc)
+        rec(0, dict(env))
+
+    def args_of(self, call, env, fi, depth):
+        pos, kw = [], {}
+        for a in call.args:
+            if isinstance(a, ast.Starred):
+                pos.extend(list(self.ev(a.value, env, fi, depth)))
+            else:
+                pos.append(self.ev(a, env, fi, depth))
+        for k in call.keywords:
+            if k.arg is None:
+                d = self.ev(k.value, env, fi, depth)
+                if not isinstance(d, dict):
+                    raise AnalysisError('** of a non-dict on the sample run')
+                kw.update(d)
+            else:
+                kw[k.arg] = self.ev(k.value, env, fi, depth)
+        return pos, kw
+
+    def ev(self, e, env, fi, depth):
+        self.tick()
+        if isinstance(e, ast.Constant):
+            return self.plain(e.value)
+        if isinstance(e, ast.Name):
+            v = self.lookup(e.id, env, fi)
+            if isinstance(v, tuple) and len(v) == 2 and v[0] in ('model', 'stop', 'func', 'builtin'):
+                raise AnalysisError('line %d: function %s used as a value' % (e.lineno, e.id))
+            return v
+        if isinstance(e, ast.JoinedStr):
+            out = []
+            for v in e.values:
+                if isinstance(v, ast.Constant):
+                    out.append(str(v.value))
+                else:
+                    x = self.ev(v.value, env, fi, depth)
+                    if v.conversion == ord('r'):
+                        x = repr(x)
+                    elif v.conversion == ord('s'):
+                        x = str(x)
+                    spec = self.ev(v.format_spec, env, fi, depth) if v.format_spec is not None else ''
+                    out.append(format(x, spec))
+            return ''.join(out)
+        if isinstance(e, (ast.List, ast.Tuple, ast.Set)):
+            items = []
+            for x in e.elts:
+                if isinstance(x, ast.Starred):
+                    items.extend(list(self.ev(x.value, env, fi, depth)))
+                else:
+                    items.append(self.ev(x, env, fi, depth))
+            return list(items) if isinstance(e, ast.List) else (tuple(items) if isinstance(e, ast.Tuple) else set(items))
+        if isinstance(e, ast.Dict):
+            d = {}
+            for k, v in zip(e.keys, e.values):
+                if k is None:
+                    d.update(self.ev(v, env, fi, depth))
+                else:
+                    d[self.ev(k, env, fi, depth)] = self.ev(v, env, fi, depth)
+            return d
+        if isinstance(e, (ast.ListComp, ast.SetComp, ast.GeneratorExp)):
+            out = []
+            self.comp(e.generators, env, fi, depth, lambda sc: out.append(self.ev(e.elt, sc, fi, depth)))
+            return set(out) if isinstance(e, ast.SetComp) else out
+        if isinstance(e, ast.DictComp):
+            d = {}
+
+            def put(sc):
+                d[self.ev(e.key, sc, fi, depth)] = self.ev(e.value, sc, fi, depth)
+            self.comp(e.generators, env, fi, depth, put)
+            return d
+        if isinstance(e, ast.BinOp):
+            if type(e.op) not in self.BINOPS:
+                raise AnalysisError('line %d: operator not modelled' % e.lineno)
+            l, r = self.ev(e.left, env, fi, depth), self.ev(e.right, env, fi, depth)
+            if not isinstance(l, self.PLAIN) or not isinstance(r, self.PLAIN):
+                raise AnalysisError('line %d: operator applied to an opaque value' % e.lineno)
+            if isinstance(e.op, ast.Mult) and ((isinstance(l, int) and l > 200) or (isinstance(r, int) and r > 200)):
+                raise AnalysisError('line %d: repetition count too large on the sample run' % e.lineno)
+            return self.plain(self.BINOPS[type(e.op)](l, r))
+        if isinstance(e, ast.UnaryOp):
+            v = self.ev(e.operand, env, fi, depth)
+            if isinstance(e.op, ast.Not):
+                return not v
+            if isinstance(e.op, ast.USub) and isinstance(v, (int, float)):
+                return -v
+            raise AnalysisError('line %d: unary operator not modelled' % e.lineno)
+        if isinstance(e, ast.BoolOp):
+            v = None
+            for x in e.values:
+                v = self.ev(x, env, fi, depth)
+                if (isinstance(e.op, ast.And) and not v) or (isinstance(e.op, ast.Or) and v):
+                    return v
+            return v
+        if isinstance(e, ast.Compare):
+            l = self.ev(e.left, env, fi, depth)
+            for op, c in zip(e.ops, e.comparators):
+                r = self.ev(c, env, fi, depth)
+                if not self.CMPOPS[type(op)](l, r):
+                    return False
+                l = r
+            return True
+        if isinstance(e, ast.IfExp):
+            return self.ev(e.body if self.ev(e.test, env, fi, depth) else e.orelse, env, fi, depth)
+        if isinstance(e, ast.Subscript):
+            c = self.ev(e.value, env, fi, depth)
+            if not isinstance(c, (str, list, tuple, dict)):
+                raise AnalysisError('line %d: subscript of %s' % (e.lineno, type(c).__name__))
+            if isinstance(e.slice, ast.Slice):
+                f = lambda x: self.ev(x, env, fi, depth) if x is not None else None
+                return c[slice(f(e.slice.lower), f(e.slice.upper), f(e.slice.step))]
+            return self.plain(c[self.ev(e.slice, env, fi, depth)])
+        if isinstance(e, ast.Attribute):
+            c = self.ev(e.value, env, fi, depth)
+            if isinstance(c, _FB) and e.attr == 'varkw':
+                return c.varkw
+            raise AnalysisError('line %d: attribute .%s read on the sample run' % (e.lineno, e.attr))
+        if isinstance(e, ast.Call):
+            return self.call(e, env, fi, depth)
+        raise AnalysisError('line %d: %s is outside the modelled subset' % (getattr(e, 'lineno', 0), type(e).__name__))
+
+    def call(self, e, env, fi, depth):
+        f = e.func
+        if isinstance(f, ast.Name):
+            tgt = self.lookup(f.id, env, fi)
+            pos, kw = self.args_of(e, env, fi, depth)
+            if isinstance(tgt, tuple) and tgt[0] == 'stop':
+                raise _Captured(pos, kw)
+            if isinstance(tgt, tuple) and tgt[0] == 'model':
+                return self.MODELLED[tgt[1]](*pos, **kw)
+            if isinstance(tgt, tuple) and tgt[0] == 'func':
+                return self.call_function(tgt[1], pos, kw, depth + 1)
+            if isinstance(tgt, tuple) and tgt[0] == 'builtin':
+                if any(isinstance(x, (_Opaque, _FB)) for x in pos) and tgt[1] not in ('repr', 'str', 'list', 'tuple', 'len', 'bool'):
+                    raise AnalysisError('line %d: %s applied to an opaque value' % (e.lineno, tgt[1]))
+                if 'key' in kw:
+                    raise AnalysisError('line %d: key functions are not modelled' % e.lineno)
+                v = self.BUILTINS[tgt[1]](*pos, **kw)
+                return self.plain(v)
+            raise AnalysisError('line %d: call of the value %s' % (e.lineno, f.id))
+        if isinstance(f, ast.Attribute):
+            dn = None
+            x, parts = f, []
+            while isinstance(x, ast.Attribute):
+                parts.append(x.attr)
+                x = x.value
+            if isinstance(x, ast.Name) and x.id not in env:
+                dn = '.'.join([x.id] + parts[::-1])
+            if dn in ('itertools.chain.from_iterable', 'chain.from_iterable') and (dn.split('.')[0] in fi.mod.imports):
+                pos, kw = self.args_of(e, env, fi, depth)
+                return [y for sub in pos[0] for y in sub]
+            if dn in ('itertools.chain',) and 'itertools' in fi.mod.imports:
+                pos, kw = self.args_of(e, env, fi, depth)
+                return [y for sub in pos for y in sub]
+            recv = self.ev(f.value, env, fi, depth)
+            pos, kw = self.args_of(e, env, fi, depth)
+            if isinstance(recv, _FB) and f.attr in ('get_arg_names', 'get_defaults_dict'):
+                return getattr(recv, f.attr)(*pos, **kw)
+            for ty, ok in self.METHODS.items():
+                if type(recv) is ty and f.attr in ok:
+                    if 'key' in kw:
+                        raise AnalysisError('line %d: key functions are not modelled' % e.lineno)
+                    v = getattr(recv, f.attr)(*pos, **kw)
+                    if f.attr in ('items', 'keys', 'values'):
+                        v = list(v)
+                    return self.plain(v)
+            raise AnalysisError('line %d: method .%s of %s is not modelled' % (e.lineno, f.attr, type(recv).__name__))
+        raise AnalysisError('line %d: call form outside the modelled subset' % e.lineno)
+
+
+def _construction_only_methods(repo, ci):
+    """Private methods of the class that can only run while ``__init__`` runs: every occurrence of the name anywhere in
+    the analysed tree is the callee of a ``self.<name>(...)`` call located in ``__init__`` of the class or in another
+    method of this set (and the name is not overridden / re-bound).  Such a method is a piece of the constructor."""
+    cand = set(n for n in ci.methods if n.startswith('_') and not (n.startswith('__') and n.endswith('__')))
+    uses = dict((n, []) for n in cand)          # name -> [(module, enclosing function node, is a self-call)]
+    for m in repo.all_internal_modules():
+        for node in ast.walk(m.tree):
+            nm = None
+            if isinstance(node, ast.Attribute) and node.attr in cand:
+                nm = node.attr
+                par = m.parents.get(node)
+                selfcall = isinstance(par, ast.Call) and par.func is node and isinstance(node.value, ast.Name) and node.value.id == 'self' \
+                    and isinstance(node.ctx, ast.Load)
+                uses[nm].append((m, m.enclosing_function(node), selfcall))
+            elif isinstance(node, ast.Name) and node.id in cand:
+                uses[node.id].append((m, None, False))
+            elif isinstance(node, ast.Constant) and isinstance(node.value, str) and node.value in cand:
+                uses[node.value].append((m, None, False))
+            elif isinstance(node, (ast.FunctionDef, ast.AsyncFunctionDef)) and node.name in cand and node is not ci.methods[node.name].node:
+                uses[node.name].append((m, None, False))      # another definition of the name (override / namesake)
+    ok = set(n for n in cand if uses[n] and all(sc for _, _, sc in uses[n]))
+    changed = True
+    while changed:
+        changed = False
+        allowed = set([ci.methods['__init__'].node] if '__init__' in ci.methods else []) | set(ci.methods[n].node for n in ok)
+        for n in sorted(ok):
+            if not all(m is ci.mod and fn in allowed for m, fn, _ in uses[n]):
+                ok.discard(n)
+                changed = True
+    return ok
+
+
+def check_route_immutable(rep, route):
+    repo = rep.repo
     # ---- R12.b -----------------------------------------------------------
     br = route.cls('BoundRoute')
+    ctor_only = _construction_only_methods(repo, br)
     for name, m in sorted(br.methods.items()):
         if name == '__init__':
             continue
         effs = [e for e in effects.effects_in(m.node) if e.root == 'self']
+        if effs and name in ctor_only:
+            rep.ok('R12.b', fkey(m), 'writes self, but is a private part of the constructor: every mention of %s in the analysed tree is a '
+                                     'self.%s(...) call from __init__ (or from another such part)' % (name, name), route, m.node)
+            continue
         rep.check('R12.b', fkey(m), not effs, 'does not write self' if not effs else
                   'BoundRoute.%s writes the shared route object after construction: %s' % (name, [short(e.node) for e in effs]),
                   route, effs[0].node if effs else m.node)
@@ -108,39 +883,10 @@ def run(rep):
     rep.ok('R12.b', 'clastic::stores through route-typed names', 'no store through %s (%d found)' % (sorted(route_roles), n))
     rep.floor('R12.b', 6)
 
-    # ---- R12.c -----------------------------------------------------------
-    vals = app.assigns.get('_REQ_ID_ITER', [])
-    ok = len(vals) == 1 and isinstance(vals[0], ast.Call) and norm(vals[0].func) in ('itertools.count', 'count') and not vals[0].args
-    rep.check('R12.c', '%s::_REQ_ID_ITER' % APP, ok, '_REQ_ID_ITER is one module-level itertools.count()' if ok else
-              '_REQ_ID_ITER is not a single module-level itertools.count(): %s' % [norm(v) for v in vals], app)
-    rebinds = []
-    for m in repo.all_internal_modules():
-        for n_ in ast.walk(m.tree):
-            if isinstance(n_, ast.Global) and '_REQ_ID_ITER' in n_.names:
-                rebinds.append((m, n_))
-            if isinstance(n_, ast.Attribute) and n_.attr == '_REQ_ID_ITER' and isinstance(n_.ctx, ast.Store):
-                rebinds.append((m, n_))
-    rep.check('R12.c', 'clastic::_REQ_ID_ITER rebinding', not rebinds, 'the counter is never rebound or reset' if not rebinds else
-              'the request-id counter is rebound at %s' % ['%s:%s' % (m.relpath, n_.lineno) for m, n_ in rebinds], app)
-    stores = []
-    for m in repo.all_internal_modules():
-        for fi2 in m.functions.values():
-            for s in stmts_of(fi2.node):
-                if isinstance(s, ast.Assign) and any(isinstance(t, ast.Attribute) and t.attr == 'request_id' for t in s.targets):
-                    stores.append((m, fi2, s))
-    ok = len(stores) == 1 and norm(stores[0][2].value) == 'next(_REQ_ID_ITER)' and stores[0][1].qualname == 'Application._dispatch_wsgi'
-    rep.check('R12.c', 'clastic::request_id source', ok, 'request_id is assigned once per request from next(_REQ_ID_ITER)' if ok else
-              'request_id is assigned from something other than next(_REQ_ID_ITER): %s' % [short(s) for _, _, s in stores], app,
-              stores[0][2] if stores else None)
-    dw = app.func('Application._dispatch_wsgi')
-    g = [s for s in stmts_of(dw.node) if isinstance(s, ast.Assign) and norm(s.targets[0]) == 'request.request_guid']
-    ok = len(g) == 1 and norm(g[0].value) == 'int2hexguid(request.request_id)'
-    rep.check('R12.c', fkey(dw, 'request_guid'), ok, 'request_guid derives from this request\'s id' if ok else 'request_guid does not derive from request.request_id', app, dw.node)
-    rq = [s for s in stmts_of(dw.node) if isinstance(s, ast.Assign) and norm(s.targets[0]) == 'request']
-    ok = len(rq) == 1 and norm(rq[0].value) == 'self.request_type(environ)'
-    rep.check('R12.c', fkey(dw, 'fresh request'), ok, 'every call builds its own request object from its own environ' if ok else
-              'the request object is not freshly built from environ', app, dw.node)
 
+
+def check_middleware_self_writes(rep):
+    repo = rep.repo
     # ---- R12.d -----------------------------------------------------------
     for fi2 in sorted(middleware_functions(repo), key=lambda f: f.key):
         effs = [e for e in effects.effects_in(fi2.node) if e.root == 'self']
@@ -151,3 +897,4 @@ def run(rep):
                   'middleware function writes its shared instance per request: %s' % [short(e.node) for e in effs], fi2.mod,
                   effs[0].node if effs else fi2.node)
     rep.floor('R12.d', 9)
+
